@@ -157,6 +157,16 @@ func genDep(r *c.Rng, backends []*backend, n int) depSpec {
 		default:
 			u.From = fmt.Sprintf("app%d.example.test", i)
 		}
+		if !u.Rewrite && i > 0 && r.Chance(0.3) {
+			// a static host that a rewrite pattern of this deployment matches as well: static wins, wherever it stands
+			j := 1 + r.Intn(4)
+			for k, e := range d.Ups {
+				if e.Rewrite && r.Chance(0.7) {
+					j = k
+				}
+			}
+			u.From = fmt.Sprintf("s.rw%d.test", j)
+		}
 		d.Ups = append(d.Ups, u)
 	}
 	return d
@@ -171,7 +181,7 @@ func (w *world) hostPool() []string {
 			hs = append(hs, u.From, u.From)
 		}
 	}
-	hs = append(hs, "nowhere.example", "APP0.example.test", "app0.example.test:80", "x.rw1.test.evil.example")
+	hs = append(hs, "nowhere.example", "APP0.example.test", "app0.example.test:80", "x.rw1.test.evil.example", "s.rw1.test", "s.rw2.test")
 	return hs
 }
 
@@ -513,6 +523,7 @@ func corpusWorld(backends []*backend) depSpec {
 		{Name: "svc1", From: "app1.example.test", To: backends[1].hostPort(), Groups: []string{"g1"}, Slug: "okta", Flush: true,
 			Overrides: [][2]string{{"X-Frame-Options", "DENY"}}, Inject: [][2]string{{"X-Custom", "op"}}},
 		{Name: "svc2", Rewrite: true, From: `^(.*)\.rw2\.test$`, To: backends[2].hostPort(), Doms: []string{"*"}, Preserve: true, SkipSign: true},
+		{Name: "svc3", From: "s.rw2.test", To: backends[3].hostPort(), Doms: []string{"example.com"}},
 	}}
 }
 
@@ -542,6 +553,7 @@ func (w *world) corpus(cases *[]c.Case) {
 	add(&reqSpec{Method: "GET", Host: h0, Target: "/open/asset.js", Headers: []hdr{{"X-Forwarded-User", "mallory"}, {"X-Forwarded-Email", "m@evil"}}}, ok, plain, "skip-auth with spoofed identity: ")
 	add(&reqSpec{Method: "GET", Host: "a.rw2.test", Target: "/x", Cookies: []string{"@S"}, Sess: goodSession(w, 2, "a.rw2.test", vnow0)}, ok, plain, "rewrite route, preserve_host: ")
 	add(&reqSpec{Method: "GET", Host: "b.rw2.test", Target: "/x", Cookies: []string{"@S"}, Sess: goodSession(w, 2, "a.rw2.test", vnow0)}, ok, plain, "same rewrite route, other host: ")
+	add(&reqSpec{Method: "GET", Host: "s.rw2.test", Target: "/x", Cookies: []string{"@S"}, Sess: goodSession(w, 3, "s.rw2.test", vnow0)}, ok, plain, "static route shadows a matching rewrite route: ")
 	add(&reqSpec{Method: "GET", Host: h0, Target: "/x", Cookies: []string{cookieName + "=junk; @S"}, Sess: goodSession(w, 0, h0, vnow0)}, ok, plain, "first cookie of the name wins: ")
 	add(&reqSpec{Method: "POST", Host: h0, Target: "/submit?a=1", Body: "k=v", Cookies: []string{"theme=dark; @S"}, Sess: goodSession(w, 0, h0, vnow0),
 		Headers: []hdr{{"Content-Type", "application/x-www-form-urlencoded"}, {"Authorization", "Bearer abc"}}}, ok, plain, "signed POST: ")
